@@ -29,7 +29,7 @@ var (
 		`........bxx.fr..................` + // 0x00
 		`xx"xoxhxxxooxoox0000000000xxhxho` + // 0x20
 		`ooooooooooooooooooooooooooox\xoo` + // 0x40
-		"oooooooooooooooooooooooooooxoxo." + // 0x60
+		"xooooooooooooooooooooooooooxxxo." + // 0x60
 		`88888888888888888888888888888888` + // 0x80
 		`88888888888888888888888888888888` + // 0xa0
 		`88888888888888888888888888888888` + // 0xc0
@@ -151,6 +151,8 @@ func AppendSENString(buf []byte, s string, htmlSafe bool) []byte {
 				buf = append(buf, hex[(b>>4)&0x0f])
 				buf = append(buf, hex[b&0x0f])
 				start = i + 1
+			} else if b == '&' { // not a token character of the SEN parser
+				quote = true
 			}
 		case '8':
 			r, cnt := utf8.DecodeRuneInString(s[i:])
